@@ -239,6 +239,45 @@ theorem trim_setup {m : Nat} {draws : List Nat} {s : SRS} (h : SRS.setup m draws
   · right
     exact ⟨by omega, (truncateKey_tooLarge_iff _ _).mpr ⟨by omega, by omega⟩⟩
 
+
+/-! ### the length-only / powers-free views used by the trapdoor prover -/
+
+/-- `truncateLen` is exactly the length view of `truncateKey`: same errors, and on success the
+    length of the truncated key -/
+theorem truncateLen_eq (powers : List G1) (d : Nat) :
+    truncateLen powers.length d = (truncateKey powers d).map List.length := by
+  unfold truncateLen truncateKey
+  by_cases h0 : d = 0
+  · simp [h0, Except.map]
+  · by_cases h1 : d > powers.length - 1
+    · simp [h0, h1, Except.map]
+    · simp [h0, h1, Except.map, List.length_take, Nat.min_comm]
+
+/-- `SRS.setupLite` is `SRS.setup` without the materialised powers: same errors, same
+    `g, h, xh, x`, and the reported length is the length of the full key -/
+theorem setupLite_eq (m : Nat) (draws : List Nat) :
+    SRS.setupLite m draws
+      = (SRS.setup m draws).map (fun s => ({ s with powers := [] }, s.powers.length)) := by
+  unfold SRS.setupLite SRS.setup
+  by_cases hm : m < 1
+  · simp [hm, Except.map]
+  · simp only [hm, if_false]
+    cases nextNonzero draws with
+    | none => rfl
+    | some xd =>
+      obtain ⟨x, d1⟩ := xd
+      dsimp only
+      cases nextNonzero d1 with
+      | none => rfl
+      | some xd2 =>
+        obtain ⟨sg, d2⟩ := xd2
+        dsimp only
+        cases nextNonzero d2 with
+        | none => rfl
+        | some xd3 =>
+          obtain ⟨sh, d3⟩ := xd3
+          simp only [Except.map, List.length_map, length_powersOf]
+
 /-! ### `nextPow2'` -/
 
 theorem nextPow2'_go_ge (n f p : Nat) : p ≤ nextPow2'.go n f p := by
